@@ -117,6 +117,7 @@ psTls13Psk_t *tls13NewPsk(const unsigned char *key,
         psk->params->ticketAgeAdd = params->ticketAgeAdd;
         psk->params->ticketLifetime = params->ticketLifetime;
         psk->params->maxEarlyData = params->maxEarlyData;
+        psk->params->clientAuth = params->clientAuth;
     }
 
 #ifdef DEBUG_TLS_1_3_PSK
